@@ -13,7 +13,7 @@ func VerifC02_DownlinkAnyMType(ver, mt int) {
 	p := d.phy()
 	verifAssert(p.SetDownlinkDataMIC(c02Version(ver), confFCnt, AES128Key(key)) == nil, "SetDownlinkDataMIC: no error")
 	verifAssert(p.MIC == MIC(want), "SetDownlinkDataMIC: B0 carries the downlink direction for every message type of the frame value")
-	carried := verifNondet4("carriedMIC")
+	carried := specCarriedMIC(want)
 	p.MIC = MIC(carried)
 	ok, err := p.ValidateDownlinkDataMIC(c02Version(ver), confFCnt, AES128Key(key))
 	verifAssert(err == nil, "ValidateDownlinkDataMIC: no error")
